@@ -12,8 +12,8 @@ GenNext ==
     \/ \E S \in RunChoices, T \in SUBSET Tg :
           Run(S, T) /\ h' = Append(h, [ev |-> "Run", S |-> S, T |-> T])
     \/ Tick /\ h' = Append(h, [ev |-> "Tick"])
-    \/ \E a \in Alg, t \in Tg, out \in Outcomes : \E new \in SUBSET prog.vals[a] :
-          Reply(a, t, out, new) /\ h' = Append(h, [ev |-> "Reply", alg |-> a, t |-> t, out |-> out, new |-> new])
+    \/ \E a \in Alg, t \in Tg, out \in Outcomes : \E new \in SUBSET prog.vals[a], old \in BOOLEAN :
+          Reply(a, t, out, new, old) /\ h' = Append(h, [ev |-> "Reply", alg |-> a, t |-> t, out |-> out, new |-> new, old |-> old])
     \/ \E S \in SUBSET Alg : Reload(S) /\ h' = Append(h, [ev |-> "Reload", S |-> S])
 GenSpec == GenInit /\ [][GenNext]_gvars
 View == vars
